@@ -29,7 +29,13 @@
              "table, time.Parse, time.Format, strconv), time.Date's choice of offset for a wall reading "
              '(enters as off_of_wall), the transform layer beyond ignore_error / empty members '
              '(member_outcome, record_outcome); the oracle (same instant / same wall reading / exact Unix '
-             "time / Go's own RFC3339 text) is evaluated with time.Date, Time.In, Time.ZoneBounds, math/big"],
+             "time / Go's own RFC3339 text) is evaluated with time.Date, Time.In, Time.ZoneBounds, math/big",
+             "round-5 classes in the generators: the tz database's legacy zone names (MST, HST, EST fixed; "
+             'EST5EDT, CST6CDT, MST7MDT, PST8PDT, WET, CET, MET, EET rule zones; GMT, Etc/GMT+5, Etc/GMT-14, '
+             'Etc/GMT+12) next to America/Denver and Pacific/Honolulu, as fromTZ / toTZ / tz / -suffix over '
+             'all instant classes; call SEQUENCES in one process: the same (text, layout) of '
+             'dateTimeLayoutToRFC3339 under both layoutTZ values in either order and repeated, every call '
+             'judged as if made alone'],
  'assumptions': ['minute_aligned (known finding F23) is not an assumption any more but characterised: '
                  'rfc3339_same_instant_iff; outside it rfc3339_within_seconds_part holds and is checked '
                  "against Go's own Format",
